@@ -35,6 +35,8 @@ func main() {
 		os.Exit(checks.C20Sub(os.Args[2:]))
 	case "c09":
 		os.Exit(checks.C09Sub(os.Args[2:]))
+	case "c14":
+		os.Exit(checks.C14Sub(os.Args[2:]))
 	case "worker":
 		fs := flag.NewFlagSet("worker", flag.ExitOnError)
 		tier := fs.String("tier", "quick", "")
